@@ -54,6 +54,7 @@ REQUIRED = [
     "path:endpoint",
     "path:client-idle",
     "path:client-behind-sender",
+    "path:client-connecting",
     "path:server-client",
     "path:server-client-behind-sender",
     "path:server-teardown",
@@ -317,6 +318,63 @@ async def build_client(loop, backend, variant: str, behind_sender: bool) -> Scen
     return sc
 
 
+async def build_client_connecting(loop, backend, variant: str) -> Scen:
+    """AsyncTCPNetworkClient closed from another task while its first wait_connected() is still inside the connection set-up
+    (wrap_stream_socket suspended): once aclose() has ended the client stays closed, and a transport that the interrupted set-up
+    still produces is closed, not adopted"""
+    from easynetwork.clients.async_tcp import AsyncTCPNetworkClient
+
+    sc = Scen()
+    c, s = _dummy_pair()
+    sc.cleanup += [c.close, s.close]
+    m = memtransport.MemStreamTransport(backend)
+    m.use_socket_extras(c)
+    m.aclose_script = {"ok": [], "slow": [("sleep", 1.0)], "yield": [("yield", 3)], "raises": [("raise", OSError(5, "x"))]}[variant]
+    gate = asyncio.Event()
+    state = {"handed_out": False}
+
+    class SlowBackend(MemBackend):
+        async def wrap_stream_socket(self, sock):
+            await gate.wait()
+            state["handed_out"] = True
+            return await super().wrap_stream_socket(sock)
+
+    mb = SlowBackend(lambda sock: m)
+    m._backend = mb
+    cli = AsyncTCPNetworkClient(c, StreamProtocol(StringLineSerializer()), mb)
+
+    async def waiter():
+        try:
+            await cli.wait_connected()
+            state["wc"] = "ok"
+        except asyncio.CancelledError:
+            raise
+        except BaseException as exc:  # noqa: BLE001
+            state["wc"] = type(exc).__name__
+
+    wt = asyncio.ensure_future(waiter())
+    sc.background.append(wt)
+    for _ in range(3):
+        await asyncio.sleep(0)
+
+    async def real_check():
+        gate.set()  # whatever is still waiting in the connection set-up may now go on
+        for _ in range(12):
+            await asyncio.sleep(0)
+        if not cli.is_closing():
+            return f"the client is not closed although aclose() ended while the connect was in progress (wait_connected: {state.get('wc', 'pending')}; is_closing() is False)"
+        if state["handed_out"] and not m.closed:
+            return "the transport produced by the interrupted connection set-up was left open"
+        return None
+
+    sc.closer = cli.aclose
+    sc.second = cli.aclose
+    sc.wrapped = []
+    sc.outer_closing = None
+    sc.real_check = real_check
+    return sc
+
+
 async def build_server_client(loop, backend, variant: str, behind_sender: bool) -> Scen:
     from easynetwork.lowlevel.socket import new_socket_address
     from easynetwork.servers.async_tcp import _ConnectedClientAPI
@@ -464,6 +522,7 @@ def _register() -> None:
     PATHS["endpoint"] = (build_endpoint, simple)
     PATHS["client-idle"] = (lambda loop, b, v: build_client(loop, b, v, False), simple)
     PATHS["client-behind-sender"] = (lambda loop, b, v: build_client(loop, b, v, True), simple)
+    PATHS["client-connecting"] = (build_client_connecting, simple)
     PATHS["server-client"] = (lambda loop, b, v: build_server_client(loop, b, v, False), simple)
     PATHS["server-client-behind-sender"] = (lambda loop, b, v: build_server_client(loop, b, v, True), simple)
     PATHS["server-teardown"] = (build_server_teardown, ["raise-before-yield", "raise-after-request", "close-client", "sleep", "eof", "raise-after-request-slow-close", "close-client-slow-close", "eof-slow-close"])
